@@ -26,7 +26,12 @@ fn hex_str(s: &str) -> String {
     s.bytes().map(|b| format!("{:02x}", b)).collect()
 }
 
-fn finish_report(int: Int<'_>) -> String {
+/// The simulator of the previous executed case, kept so that the next case can also be executed on a *re-used*
+/// simulator (`Sym::init` + `reset` + `finish`), which must give what a fresh `Sym::new` gives.
+static PREV: std::sync::Mutex<Option<(Sym, String)>> = std::sync::Mutex::new(None);
+
+fn finish_report(int: Int<'_>, seed: u64, label: &str) -> String {
+    let int_again = int.clone();
     let rec = int.iter_ast().count();
     let fnv = |t: &str| t.bytes().fold(0xcbf29ce484222325u64, |h, b| (h ^ b as u64).wrapping_mul(0x100000001b3));
     let rec_hashes: Vec<u64> = int.iter_ast().map(|a| fnv(a.source())).collect();
@@ -50,6 +55,26 @@ fn finish_report(int: Int<'_>) -> String {
     s.push_str(&format!(" rech {}", rec_hashes.len()));
     for h in &rec_hashes { s.push_str(&format!(" {:016x}", h)); }
     s.push_str(if rec_into == rec_hashes { " reci 1" } else { " reci 0" });
+    // the same program on the simulator the previous case left behind
+    let mut prev = PREV.lock().unwrap_or_else(|e| e.into_inner());
+    if let Some((mut old, old_label)) = prev.take() {
+        qvnt::verif::seed(seed);
+        let _ = qvnt::verif::take_outcomes();
+        old.init(int_again);
+        old.reset();
+        old.finish();
+        let _ = qvnt::verif::take_outcomes();
+        let c2 = old.get_class();
+        let raw2 = old.verif_raw();
+        let same = c2.get() == c.get() && c2.num() == c.num() && raw2.len() == raw.len()
+            && raw2.iter().zip(raw.iter()).all(|(a, b)| a.re.to_bits() == b.re.to_bits() && a.im.to_bits() == b.im.to_bits());
+        if same {
+            s.push_str(" reuse 1");
+        } else {
+            s.push_str(&format!(" reuse 0 class {} {} prev {}", c2.get(), c2.num(), old_label));
+        }
+    }
+    *prev = Some((sym, label.to_string()));
     s
 }
 
@@ -58,13 +83,17 @@ pub fn run(toks: &[&str]) -> String {
     match t.next().unwrap() {
         "run" => {
             let api = t.next().unwrap();
-            let xor = t.next().unwrap() == "1";
+            // 0: overwrite mode; accumulate mode chosen 1: after the last chunk, 2: on the still empty session,
+            // 3: after the first chunk
+            let xor: u8 = t.next().unwrap().parse().unwrap();
             let seed: u64 = t.next().unwrap().parse().unwrap();
             let k = parse_n(t.next().unwrap());
             let srcs: Vec<String> = (0..k).map(|_| unhex_str(t.next().unwrap())).collect();
             qvnt::verif::seed(seed);
             let mut int = Int::default();
+            if xor == 2 { int = int.xor(); }
             for (i, src) in srcs.iter().enumerate() {
+                if xor == 3 && i == 1 { int = int.xor(); }
                 let ast = match Ast::from_source(src) {
                     Ok(a) => a,
                     Err(e) => return format!("PARSE {} {:?}", i, e),
@@ -81,13 +110,13 @@ pub fn run(toks: &[&str]) -> String {
                     _ => return "ERR api".into(),
                 }
             }
-            if xor { int = int.xor(); }
+            if xor == 1 || (xor == 3 && srcs.len() < 2) { int = int.xor(); }
             // execution is restricted to programs of simulable size
             let nq = int.get_q_alias().matches('"').count() / 2;
             if nq > 12 {
                 return format!("OKNOEXEC {} {}", nq, hex_str(&int.get_ops_tree()));
             }
-            format!("OK {}", finish_report(int))
+            format!("OK {}", finish_report(int, seed, &format!("{}{}", if xor != 0 { "x" } else { "" }, srcs.iter().map(|s| hex_str(s)).collect::<Vec<_>>().join("+"))))
         }
         "session" => {
             // a leading 'x' on the seed token: the session starts from Int::default().xor()
@@ -126,15 +155,19 @@ pub fn run(toks: &[&str]) -> String {
                 }
                 snaps.push(snapshot(&int));
             }
-            format!("OK v {} {} snap {} | final {}", verdicts.len(), verdicts.join(" "), snaps.join("/"), finish_report(int))
+            format!("OK v {} {} snap {} | final {}", verdicts.len(), verdicts.join(" "), snaps.join("/"), finish_report(int, seed, "session"))
         }
         "rerun" => {
             let seed: u64 = t.next().unwrap().parse().unwrap();
             let src = unhex_str(t.next().unwrap());
             let src2 = unhex_str(t.next().unwrap());
+            // optional: accumulate mode of the program / of the other program (the simulator that is re-used)
+            let x1 = t.next().map(|v| v == "1").unwrap_or(false);
+            let x2 = t.next().map(|v| v == "1").unwrap_or(false);
             qvnt::verif::seed(seed);
             let ast = match Ast::from_source(&src) { Ok(a) => a, Err(e) => return format!("PARSE 0 {:?}", e) };
             let int = match Int::new(ast) { Ok(i) => i, Err(e) => return format!("ERR 0 {:?}", e) };
+            let int = if x1 { int.xor() } else { int };
             let mut sym = Sym::new(int.clone());
             let mut outs = vec![];
             let mut report = |sym: &Sym| {
@@ -158,6 +191,7 @@ pub fn run(toks: &[&str]) -> String {
             outs.push(report(&sym));
             let ast2 = match Ast::from_source(&src2) { Ok(a) => a, Err(e) => return format!("PARSE 1 {:?}", e) };
             let int2 = match Int::new(ast2) { Ok(i) => i, Err(e) => return format!("ERR 1 {:?}", e) };
+            let int2 = if x2 { int2.xor() } else { int2 };
             let mut sym2 = Sym::new(int2);
             sym2.reset(); sym2.finish();
             qvnt::verif::seed(seed);
